@@ -9,7 +9,7 @@ CONSTANTS
   LockComplete = TRUE
   LockAlg = TRUE
   NULL = NULL
-INVARIANTS OneStudyPerName IdsUnique IdsDense AtMostN OneGroupPerTrial FeedbackAtMostOnce
+INVARIANTS SingleCreator SetupAtomic SingleCompleter OneStudyPerName IdsUnique IdsDense AtMostN OneGroupPerTrial FeedbackAtMostOnce
   CompletedAtMostOnce CountersExact InfeasibleNeverBest SameGroupSamePending CountsConsistent
   NoDeadlock AtQuiescence
 PROPERTIES RegistryStable StatusMonotone LatestMonotone
